@@ -888,6 +888,10 @@ class Interp:
         self.depth += 1
         saved_lc = self.loop_counter.get(clo.qualname)
         self.loop_counter[clo.qualname] = 0
+        saved_spec = self.spec
+        if clo.module == '__spec__':
+            # a spec function (specs/oracles.py) called from a ghost program: its body is a spec expression
+            self.spec = True
         try:
             if isinstance(fn, ast.Lambda):
                 return self.eval(fn.body, newf)
@@ -897,6 +901,7 @@ class Interp:
                 return r.v
             return NONE
         finally:
+            self.spec = saved_spec
             self.depth -= 1
             if saved_lc is not None:
                 self.loop_counter[clo.qualname] = saved_lc
